@@ -31,15 +31,6 @@ Flag(case, clauses, line) ==
   ELSE IF PrintT(<<"REJECT", case, clauses, line>>) THEN bad \cup {<<case, c>> : c \in clauses}
   ELSE bad
 
-\* [tag, o, ol, n, nl] tuples (tag 0..3, 4 = finish) as Script events
-TupleEvent(t) ==
-  CASE t[1] = 0 -> EvEqual(t[2], t[4], t[3])
-    [] t[1] = 1 -> EvDelete(t[2], t[3], t[4])
-    [] t[1] = 2 -> EvInsert(t[2], t[4], t[5])
-    [] t[1] = 3 -> EvReplace(t[2], t[3], t[4], t[5])
-    [] t[1] = 4 -> EvFinish
-
-
 (* Behind the compaction adapter the carried indices are the subject of   *)
 (* C11 (and of known finding KF-1), not of the hook-protocol properties:   *)
 (* C10 demands exact carried indices only through Replace alone.           *)
